@@ -112,7 +112,21 @@ fn bind(ctx: Ctx, obj: &Map<String, Value>, path: &str, k: &dyn Fn(Ctx, &Map<Str
   }
 }
 
+/// how the nested members of an `And` are grouped.  `ByPath` is the documented semantics; the two
+/// weaker groupings are only used to MEASURE how many generated decisions depend on the binding
+/// of sibling clauses (reported in the input distribution, never used as an oracle)
+#[derive(Clone, Copy, PartialEq)]
+enum Grouping {
+  ByPath,
+  AdjacentRuns,
+  Separate,
+}
+
 fn spec_eval(ctx: Ctx, obj: &Map<String, Value>, f: &Value) -> bool {
+  eval_with(Grouping::ByPath, ctx, obj, f)
+}
+
+fn eval_with(gr: Grouping, ctx: Ctx, obj: &Map<String, Value>, f: &Value) -> bool {
   let (tag, body) = single_key(f);
   match tag {
     "KeywordEq" | "KeywordIn" | "I64Range" | "F64Range" => {
@@ -120,46 +134,49 @@ fn spec_eval(ctx: Ctx, obj: &Map<String, Value>, f: &Value) -> bool {
       let path: Vec<&str> = field.split('.').collect();
       leaf_passes(ctx, obj, &path, tag, body)
     }
-    "Nested" => bind(ctx, obj, body["path"].as_str().unwrap_or(""), &|c, o| spec_eval(c, o, &body["filter"])),
+    "Nested" => bind(ctx, obj, body["path"].as_str().unwrap_or(""), &|c, o| eval_with(gr, c, o, &body["filter"])),
     "And" => {
       let fs = body.as_array().cloned().unwrap_or_default();
-      let mut paths: Vec<String> = Vec::new();
+      // groups of nested members: (path, inner filters)
+      let mut groups: Vec<(String, Vec<Value>)> = Vec::new();
       for g in fs.iter() {
         let (t, b) = single_key(g);
         if t == "Nested" {
           let p = b["path"].as_str().unwrap_or("").to_string();
-          if !paths.contains(&p) {
-            paths.push(p);
+          let slot = match gr {
+            // sibling nested clauses on one path bind the same object, wherever they stand
+            Grouping::ByPath => groups.iter().position(|(q, _)| *q == p),
+            Grouping::AdjacentRuns => match groups.last() {
+              Some((q, _)) if *q == p => Some(groups.len() - 1),
+              _ => None,
+            },
+            Grouping::Separate => None,
+          };
+          match slot {
+            Some(i) => groups[i].1.push(b["filter"].clone()),
+            None => groups.push((p, vec![b["filter"].clone()])),
           }
-        } else if !spec_eval(ctx, obj, g) {
+        } else if !eval_with(gr, ctx, obj, g) {
           return false;
         }
       }
-      // sibling nested clauses on one path bind the same object
-      paths.iter().all(|p| {
-        let inner: Vec<Value> = fs
-          .iter()
-          .filter_map(|g| {
-            let (t, b) = single_key(g);
-            if t == "Nested" && b["path"].as_str() == Some(p.as_str()) {
-              Some(b["filter"].clone())
-            } else {
-              None
-            }
-          })
-          .collect();
+      groups.iter().all(|(p, inner)| {
         let grouped = json!({ "And": inner });
-        bind(ctx, obj, p, &|c, o| spec_eval(c, o, &grouped))
+        bind(ctx, obj, p, &|c, o| eval_with(gr, c, o, &grouped))
       })
     }
-    "Or" => body.as_array().map(|fs| fs.iter().any(|g| spec_eval(ctx, obj, g))).unwrap_or(false),
-    "Not" => !spec_eval(ctx, obj, body),
+    "Or" => body.as_array().map(|fs| fs.iter().any(|g| eval_with(gr, ctx, obj, g))).unwrap_or(false),
+    "Not" => !eval_with(gr, ctx, obj, body),
     _ => false,
   }
 }
 
 pub fn spec_passes(s: &SchemaS, doc: &Value, f: &Value) -> bool {
   doc.as_object().map(|m| spec_eval(Ctx::Top(s), m, f)).unwrap_or(false)
+}
+
+fn weak_passes(gr: Grouping, s: &SchemaS, doc: &Value, f: &Value) -> bool {
+  doc.as_object().map(|m| eval_with(gr, Ctx::Top(s), m, f)).unwrap_or(false)
 }
 
 // ---------------------------------------------------------------------------------------------
@@ -331,19 +348,33 @@ fn gen_filter(rng: &mut Rng, ctx: Ctx, depth: usize) -> Value {
     0 | 1 | 2 => gen_leaf_clause(rng, ctx),
     3 | 4 | 5 | 6 if has_children => gen_nested_clause(rng, ctx, depth).unwrap(),
     7 | 8 => {
-      // And, with a bias towards sibling nested clauses on one path
-      let n = 2 + rng.below(2);
+      // And of 2-5 members in random order: nested clauses on one or two child paths (several
+      // per path, so that siblings on one path are separated by clauses on another path or by
+      // non-nested clauses), leaf clauses, arbitrary sub-filters
+      let n = 2 + rng.below(4);
       let mut fs: Vec<Value> = Vec::new();
-      let cs = children_of(ctx);
-      if !cs.is_empty() && rng.chance(2, 3) {
-        let c = *rng.pick(&cs);
+      let mut cs = children_of(ctx);
+      rng.shuffle(&mut cs);
+      cs.truncate(2);
+      if !cs.is_empty() && rng.chance(3, 4) {
         for _ in 0..n {
-          if rng.chance(3, 4) {
-            fs.push(json!({"Nested": {"path": c.name, "filter": gen_filter(rng, Ctx::In(c), depth.saturating_sub(1))}}));
-          } else {
-            fs.push(gen_filter(rng, ctx, depth.saturating_sub(1)));
+          match rng.below(8) {
+            0 | 1 | 2 | 3 => {
+              // the first path gets most clauses; simple inner filters keep them satisfiable
+              let c = cs[0];
+              let d = if rng.chance(1, 2) { 0 } else { depth.saturating_sub(1) };
+              fs.push(json!({"Nested": {"path": c.name, "filter": gen_filter(rng, Ctx::In(c), d)}}));
+            }
+            4 | 5 => {
+              let c = cs[cs.len() - 1];
+              let d = if rng.chance(1, 2) { 0 } else { depth.saturating_sub(1) };
+              fs.push(json!({"Nested": {"path": c.name, "filter": gen_filter(rng, Ctx::In(c), d)}}));
+            }
+            6 => fs.push(gen_leaf_clause(rng, ctx)),
+            _ => fs.push(gen_filter(rng, ctx, depth.saturating_sub(1))),
           }
         }
+        rng.shuffle(&mut fs);
       } else {
         for _ in 0..n {
           fs.push(gen_filter(rng, ctx, depth.saturating_sub(1)));
@@ -359,6 +390,139 @@ fn gen_filter(rng: &mut Rng, ctx: Ctx, depth: usize) -> Value {
     11 => json!({ "And": [] }),
     _ => gen_leaf_clause(rng, ctx),
   }
+}
+
+// ---------------------------------------------------------------------------------------------
+// binding probes: value-directed `And`s whose nested members are satisfied by DIFFERENT objects
+// ---------------------------------------------------------------------------------------------
+
+/// a place in a document where one parent object holds an array of at least two objects:
+/// the names from the top down to the array, the schema node of the array, the parent's schema
+/// context, the parent object and the objects of the array
+struct Site<'a> {
+  chain: Vec<String>,
+  node: &'a NestedS,
+  parent_ctx: Ctx<'a>,
+  parent: &'a Map<String, Value>,
+  objs: Vec<&'a Map<String, Value>>,
+}
+
+fn sites<'a>(s: &'a SchemaS, doc: &'a Value) -> Vec<Site<'a>> {
+  fn walk<'a>(ctx: Ctx<'a>, obj: &'a Map<String, Value>, chain: &[String], out: &mut Vec<Site<'a>>) {
+    for c in children_of(ctx) {
+      if let Some(v) = obj.get(&c.name) {
+        let mut ch = chain.to_vec();
+        ch.push(c.name.clone());
+        let objs: Vec<&Map<String, Value>> = match v {
+          Value::Array(a) => a.iter().filter_map(|e| e.as_object()).collect(),
+          Value::Object(m) => vec![m],
+          _ => Vec::new(),
+        };
+        if objs.len() >= 2 {
+          out.push(Site { chain: ch.clone(), node: c, parent_ctx: ctx, parent: obj, objs: objs.clone() });
+        }
+        for o in objs {
+          walk(Ctx::In(c), o, &ch, out);
+        }
+      }
+    }
+  }
+  let mut out = Vec::new();
+  if let Some(m) = doc.as_object() {
+    walk(Ctx::Top(s), m, &[], &mut out);
+  }
+  out
+}
+
+fn never(rng: &mut Rng) -> Value {
+  json!({"KeywordEq": {"field": *rng.pick(&["nosuch", "missing"]), "value": "x"}})
+}
+
+/// a leaf clause (relative to `ctx`) that object `obj` satisfies, built from one of its values
+fn clause_true_of(rng: &mut Rng, ctx: Ctx, obj: &Map<String, Value>) -> Value {
+  let mut cands: Vec<(&LeafS, &Value)> = Vec::new();
+  for l in leaves_of(ctx) {
+    if l.fast {
+      if let Some(v) = obj.get(&l.name) {
+        for x in scalars(v) {
+          cands.push((l, x));
+        }
+      }
+    }
+  }
+  if cands.is_empty() {
+    return json!({"Not": never(rng)});
+  }
+  let (l, x) = *rng.pick(&cands);
+  match l.kind {
+    K::Keyword | K::Text => {
+      let w = x.as_str().unwrap_or("");
+      if rng.chance(1, 2) {
+        json!({"KeywordEq": {"field": l.name, "value": flip_case(rng, w)}})
+      } else {
+        let other = *rng.pick(&KWS);
+        let mut vs = vec![flip_case(rng, w), other.to_string()];
+        rng.shuffle(&mut vs);
+        json!({"KeywordIn": {"field": l.name, "values": vs}})
+      }
+    }
+    K::I64 => {
+      let n = x.as_i64().unwrap_or(0);
+      json!({"I64Range": {"field": l.name, "min": n - rng.range(0, 1), "max": n + rng.range(0, 1)}})
+    }
+    K::F64 => {
+      let n = x.as_f64().unwrap_or(0.0);
+      json!({"F64Range": {"field": l.name, "min": n - rng.range(0, 2) as f64 * 0.25, "max": n + rng.range(0, 2) as f64 * 0.25}})
+    }
+  }
+}
+
+/// `And` (wrapped in the `Nested` clauses leading to the site) with two or three nested members on
+/// the site's path, each true of a different object, separated — in random order — by a nested
+/// clause on a sibling path, a leaf clause on the parent and/or a trivially true member
+fn gen_binding_probe(rng: &mut Rng, s: &SchemaS, docs: &[Value]) -> Option<Value> {
+  let mut all: Vec<Site> = Vec::new();
+  for d in docs.iter() {
+    all.extend(sites(s, d));
+  }
+  if all.is_empty() {
+    return None;
+  }
+  let site = &all[rng.below(all.len())];
+  let p = site.chain.last().unwrap().clone();
+  let mut order: Vec<usize> = (0..site.objs.len()).collect();
+  rng.shuffle(&mut order);
+  let k = if site.objs.len() >= 3 && rng.chance(1, 3) { 3 } else { 2 };
+  let mut members: Vec<Value> = Vec::new();
+  for &oi in order.iter().take(k) {
+    let inner = clause_true_of(rng, Ctx::In(site.node), site.objs[oi]);
+    members.push(json!({"Nested": {"path": p, "filter": inner}}));
+  }
+  // separators
+  let siblings: Vec<&NestedS> = children_of(site.parent_ctx).into_iter().filter(|c| c.name != p).collect();
+  if !siblings.is_empty() && rng.chance(3, 4) {
+    let q = *rng.pick(&siblings);
+    let inner = match site.parent.get(&q.name).map(|v| objs_of(v)) {
+      Some(os) if !os.is_empty() && rng.chance(2, 3) => {
+        let o = os[rng.below(os.len())];
+        clause_true_of(rng, Ctx::In(q), o)
+      }
+      _ => json!({"Not": never(rng)}),
+    };
+    members.push(json!({"Nested": {"path": q.name, "filter": inner}}));
+  }
+  if rng.chance(1, 2) {
+    members.push(clause_true_of(rng, site.parent_ctx, site.parent));
+  }
+  if rng.chance(1, 4) {
+    members.push(json!({"Not": never(rng)}));
+  }
+  rng.shuffle(&mut members);
+  let mut f = json!({ "And": members });
+  for name in site.chain[..site.chain.len() - 1].iter().rev() {
+    f = json!({"Nested": {"path": name, "filter": f}});
+  }
+  Some(f)
 }
 
 fn has_nested_in_nested(f: &Value) -> bool {
@@ -397,13 +561,13 @@ impl Prop for C08 {
     "C08"
   }
   fn rule(&self) -> &'static str {
-    "case = (random schema: keyword/i64/f64 flat fields and nested objects up to 3 levels, mostly fast; 6-14 valid documents with arrays of parent objects each holding child arrays, empty arrays, nulls where nullable, multi-valued leaves; 8 random And/Or/Not/Nested filter trees incl. sibling nested clauses on one path, nested-in-nested, dotted top-level paths, mismatched clause types, case variants); the corpus is indexed once (two segments) and every filter is run as match_all+filter; one evaluation = one (corpus, filter) pair; non-trivial = the filter passes at least one and fails at least one document of the corpus; distinct = distinct (schema, docs, filter) JSON"
+    "case = (random schema: keyword/i64/f64 flat fields and nested objects up to 3 levels, mostly fast; 6-14 valid documents with arrays of parent objects each holding child arrays, empty arrays, nulls where nullable, multi-valued leaves; 8 random And/Or/Not/Nested filter trees incl. Ands of 2-5 members that interleave nested clauses on two paths with non-nested members in random order, nested-in-nested, dotted top-level paths, mismatched clause types, case variants; plus up to 3 value-directed binding probes: an And (at any nesting level) whose nested members on one path are each true of a DIFFERENT object of one array of the corpus, separated in random order by a nested clause on a sibling path and other members); the corpus is indexed once (two segments) and every filter is run as match_all+filter; one evaluation = one (corpus, filter) pair; non-trivial = the filter passes at least one and fails at least one document of the corpus; distinct = distinct (schema, docs, filter) JSON"
   }
   fn count(&self, tier: Tier) -> usize {
     tier.pick(160, 6000)
   }
   fn gen(&self, rng: &mut Rng, _tier: Tier, i: usize) -> Value {
-    let o = SchemaOpts { fast_8: 7, max_depth: 3, text: false };
+    let o = SchemaOpts { fast_8: 7, max_depth: 3, text: false, multi_nested: true };
     let mut s = gen_schema(rng, &o);
     // filters need something to look at
     for _ in 0..4 {
@@ -414,7 +578,13 @@ impl Prop for C08 {
     }
     let nd = 6 + rng.below(9);
     let docs: Vec<Value> = (0..nd).map(|d| gen_valid_doc(rng, &s, &format!("c{i}d{d}"))).collect();
-    let filters: Vec<Value> = (0..8).map(|_| gen_filter(rng, Ctx::Top(&s), 3)).collect();
+    let mut filters: Vec<Value> = (0..8).map(|_| gen_filter(rng, Ctx::Top(&s), 3)).collect();
+    // three value-directed binding probes (sibling nested clauses true of different objects)
+    for _ in 0..3 {
+      if let Some(f) = gen_binding_probe(rng, &s, &docs) {
+        filters.push(f);
+      }
+    }
     json!({"schema": s.to_json(), "docs": docs, "filters": filters})
   }
   fn run_case(&self, drv: &mut Driver, case: &Value, s: &mut Summary) {
@@ -479,6 +649,13 @@ impl Prop for C08 {
         }
         // ---- finder: the documented semantics on the tree, harness oracle, no model -----------
         let want = spec_passes(&schema, d, f);
+        // generator strength: decisions that depend on sibling nested clauses sharing one object
+        if weak_passes(Grouping::Separate, &schema, d, f) != want {
+          s.count("decisions:sibling-binding-matters");
+        }
+        if weak_passes(Grouping::AdjacentRuns, &schema, d, f) != want {
+          s.count("decisions:non-adjacent-sibling-binding-matters");
+        }
         if want != spec_m[k] {
           s.disagree("Spec.passes-vs-oracle", &small(d), json!({"oracle": want}), json!({"spec": spec_m[k]}));
         }
